@@ -76,6 +76,7 @@ class Check:
         self.floors = []
         self.floor_errors = []
         self.selftest = None
+        self.downgraded = []
         self.explanation = ''
         self.technique = ''
 
@@ -215,6 +216,21 @@ class Check:
                     hit = k
                     break
             (listed if hit else unlisted).append((v, hit))
+        # violations located in a function that was rewritten wholesale are
+        # not believed: the rules were validated against another structure
+        # (see vsa/restructure.py); they become "undecided"
+        from .restructure import restructured
+        kept = []
+        for v, k in unlisted:
+            why = restructured(self.repo, v.function)
+            if why:
+                self.floor_errors.append(
+                    '%s undecided in %s (%s): would have reported "%s"' % (
+                        v.rule, v.function, why, v.message[:90]))
+                self.downgraded.append(v)
+            else:
+                kept.append((v, k))
+        unlisted = kept
         if self.floor_errors and not unlisted:
             # a missing instance next to an (unlisted) violation is reported
             # as the violation; alone it is analysis-broken
@@ -298,7 +314,12 @@ class Check:
             'paths': self.paths,
             'parsed': self.repo.stats(),
             'known_findings_reported': [v.as_dict() for v in listed],
-            'notes': self.notes,
+            'notes': self.notes + [
+                'restructuring gate (DESIGN.md 10.9): a violation located in '
+                'a function rewritten wholesale relative to the pinned form '
+                'is downgraded to "undecided" (exit 2 when nothing else is '
+                'reported); downgraded in this run: %d' % len(
+                    self.downgraded)],
             'exhaustive': False,
         }
         if self.selftest is not None:
